@@ -243,7 +243,7 @@ fn rule_addendum(prop: &str) -> &'static str {
         "C08" => " After every prefix the scripted transport also FAILS (reset, aborted, broken pipe, timed out, unexpected end, other): inside a frame that must be reported as an error, never as a clean end.",
         "C10" => " The client that does not read: 1 or 3 GETs of a 16 KiB .. 1 MiB (4 MiB) value with a 4 KiB receive buffer, nothing read, then garbage / an unknown command / a request prefix / nothing, with and without half-close; the server thread may not be busy with that for more than 6 s, the control connection and a new connection are answered at once, the replies the client finally reads are complete, the data is unchanged.",
         "C11" => " Faulted commands: DEL k or SET k 1 whose store call fails (every file-system call it makes returns EIO; its first write is slow and then fails, which is a switching point) is stepped through its hook points while another client's two GET k run before every pair of those points; the client of the failed command gets no success reply and all reads must be explained by the failed command taking effect once or not at all.",
-        "C12" => " One word sets 2^20+2 keys, merges and reopens (more than 2^20 records in one hint file); the bulk words also run with one entry per file (merge passes over thousands of files).",
+        "C12" => " One word sets 2^20+2 keys, merges and reopens (more than 2^20 records in one hint file); the bulk words also run with one entry per file (merge passes over thousands of files); 30 words put four keys into one merge output with one or two odd values (empty, CR LF NUL, a reserved literal) in every position.",
         "C19" => " The bulk words also run with one entry per file (file size limit 0: merge passes over up to 4 100 files).",
         "C15" => " In the final phase the N connections stay open and silent while a minute, an hour and two days pass for the server; connections it closed are replaced (all must be served) and one more must wait.",
         "C16" => " After the signal ten minutes pass for the server thread (timers it sleeps on fire) while commands are held or a reply is stalled: run() must still be waiting.",
